@@ -89,6 +89,12 @@ impl Out {
         fe["id"] = json!(id);
         self.put(&fe);
     }
+    /// two instantiations of one declaration, registered in ONE registry: each must resolve to its own definition
+    pub fn pair<T: TypeInfo + 'static, T2: TypeInfo + 'static>(&mut self, id: usize) {
+        let mut fe = crate::extract::faithful_event(&[meta_type::<T>(), meta_type::<T2>()]);
+        fe["id"] = json!(id);
+        self.put(&fe);
+    }
     /// the portable registry containing T (what a third-party decoder gets) and values of T
     pub fn values<T: TypeInfo + Val + Encode + 'static>(&mut self, id: usize) {
         let mut r = Registry::new();
